@@ -86,6 +86,11 @@ class RadialClamp(ClampBase):
         else:
             clamp_bounds = None
 
+        # the circle is declared by values: keep own copies of center and normal so that
+        # arrays the caller changes in place later (vertex positions) do not move it
+        center = np.array(center, dtype=float)
+        normal = np.array(normal, dtype=float)
+
         # Clamps that move points linearly have a clear connection
         # <delta_params> - <delta_position>.
         # With rotation, this strongly depends on the radius of the point.
